@@ -1950,6 +1950,7 @@ def _vec_truncate(I, info, args):
 
 LINE_OF = z3.Function('line_of', z3.IntSort(), z3.IntSort())
 COL_OF = z3.Function('col_of', z3.IntSort(), z3.IntSort())
+COL_DISPLAY_OF = z3.Function('col_display_of', z3.IntSort(), z3.IntSort())
 
 
 def _as_int_term(v):
@@ -1965,7 +1966,7 @@ def _lookup_char_pos(I, info, args):
     pos = args[1]
     lo = pos.fields[0] if isinstance(pos, Adt) else pos
     t = _as_int_term(lo)
-    return Adt('Loc', None, [Opaque('SourceFile'), LINE_OF(t), Adt('CharPos', None, [COL_OF(t)]), 0])
+    return Adt('Loc', None, [Opaque('SourceFile'), LINE_OF(t), Adt('CharPos', None, [COL_OF(t)]), COL_DISPLAY_OF(t)])
 
 
 @path(('str', 'to_owned'), ('String', 'to_owned'))
@@ -2111,3 +2112,16 @@ def _gt(I, info, args):
 @trait('PartialOrd', 'ge')
 def _ge(I, info, args):
     return _cmp(I, args[0], args[1], 'ge')
+
+
+@path(('str', 'as_bytes'), ('String', 'as_bytes'))
+def _as_bytes(I, info, args):
+    return as_str(I, args[0])      # byte view of the same string (only handed on to stubs)
+
+
+@path(('String', 'from_utf8'))
+def _from_utf8(I, info, args):
+    v = deref(args[0])
+    if isinstance(v, StrV):
+        return ok(v)
+    raise Unsupported('String::from_utf8 of %r' % (v,))
